@@ -32,6 +32,9 @@ type input struct {
 	W    []byte `json:"w"`
 	Q    string `json:"q,omitempty"` // P+W Go-quoted, for readers only
 	K    string `json:"k,omitempty"` // which generator stream produced it (distribution tag only)
+	// Hist: calls a FRESH child process makes before it inflects P+W; the answer must be the one a fresh child gives that
+	// makes no other call (history.go).  Empty for ordinary cases.
+	Hist []hcall `json:"hist,omitempty"`
 }
 
 func mk(rule, p, w string) json.RawMessage { return mkK(rule, p, w, "") }
@@ -217,6 +220,8 @@ func (prop) Generate(r *core.RNG, tier string) []json.RawMessage {
 	} {
 		out = append(out, mk(c[0], c[1], c[2]))
 	}
+	// purity over histories: the two-order pass (its minimised findings become cases) and the fixed family, see history.go
+	out = append(out, histCases(r.Fork(), sd, tier)...)
 	// every irregular word (and its replacement) of the current tables: alone, with a separator, in three cases
 	for _, rule := range rules {
 		for _, it := range sd[rule].items {
@@ -491,6 +496,12 @@ func (prop) Run(in json.RawMessage, _ string) core.Result {
 			obs.PanicText = t
 		}
 	}
+	if len(inp.Hist) > 0 {
+		v, n := historyViolations(rule, s, inp.Hist)
+		res.GoViolations = append(res.GoViolations, v...)
+		res.Notes = append(res.Notes, n...)
+		res.Tags = append(res.Tags, fmt.Sprintf("history-calls=%d", len(inp.Hist)))
+	}
 	if obs.FullPanic {
 		res.GoViolations = append(res.GoViolations, fmt.Sprintf("%s(%q) panics: %s", rule, s, obs.PanicText))
 	}
@@ -602,7 +613,28 @@ func (prop) Shrink(in json.RawMessage) []json.RawMessage {
 		k := p2 + "\x00" + w2
 		if !seen[k] {
 			seen[k] = true
-			out = append(out, mk(inp.Rule, p2, w2))
+			if len(inp.Hist) > 0 {
+				out = append(out, mkH(inp.Rule, p2, w2, inp.Hist...))
+			} else {
+				out = append(out, mk(inp.Rule, p2, w2))
+			}
+		}
+	}
+	// a history: fewer calls first (halves, one dropped), then shorter calls
+	if h := inp.Hist; len(h) > 0 {
+		if len(h) > 2 {
+			out = append(out, mkH(inp.Rule, p, w, h[len(h)/2:]...), mkH(inp.Rule, p, w, h[:len(h)/2]...))
+		}
+		for i := range h {
+			if len(h) > 1 {
+				out = append(out, mkH(inp.Rule, p, w, append(append([]hcall{}, h[:i]...), h[i+1:]...)...))
+			}
+			hs := string(h[i].S)
+			if cut := trailingLetters(hs); cut > 0 { // the earlier call without its prefix
+				h2 := append([]hcall{}, h...)
+				h2[i] = hc(h[i].Rule, hs[cut:])
+				out = append(out, mkH(inp.Rule, p, w, h2...))
+			}
 		}
 	}
 	if p != "" {
